@@ -58,9 +58,12 @@ class Run:
         self.remote_tasks = []
         self.channels = []
         self.on_event = None
+        self.dead = False
 
     # -- trace ---------------------------------------------------------------
     def ev(self, *a):
+        if self.dead:
+            return        # a stale simulator object of a finished run (finalized by the GC)
         self.trace.append(a)
         if self.on_event is not None:
             self.on_event(a)
@@ -81,6 +84,14 @@ class Run:
             simcfg = SIM_CONFIG_MEM
         else:
             simcfg = SIM_CONFIG_LOCAL
+        simcfg = dict(simcfg)
+        key = "mem" if cfg["transport"] == "mem" else "python"
+        for s_ in scen["sims"]:
+            if s_.get("cls") or s_.get("cfg_version"):
+                entry = {key: f"mc.stubs:{s_.get('cls', 'StubSim')}"}
+                if s_.get("cfg_version"):
+                    entry["api_version"] = s_["cfg_version"]
+                simcfg[f"Stub_{s_['sid']}"] = entry
         kw = {}
         if "time_resolution" in scen:
             kw["time_resolution"] = scen["time_resolution"]
@@ -102,7 +113,8 @@ class Run:
             w.current_group = groups[s.get("group")]
             with warnings.catch_warnings():
                 warnings.simplefilter("ignore")
-                ents[sid] = w.start("Stub", sim_id=sid, spec=s).M()
+                name = f"Stub_{sid}" if (s.get("cls") or s.get("cfg_version")) else "Stub"
+                ents[sid] = w.start(name, sim_id=sid, spec=s).M()
         w.current_group = w.main_group
         self.ents = ents
         for c in scen["conns"]:
@@ -163,6 +175,7 @@ class Run:
                     loop.close()
             except Exception:  # noqa: BLE001
                 pass
+            self.dead = True
             gc.collect(1)
             env.LOG_SINK.pop()
             stubs.CTX = None
